@@ -4,21 +4,17 @@
 //! no-op unless a harness installs a callback, and the snapshot types are
 //! plain copies of internal state handed out read-only.
 
-use std::sync::atomic::{AtomicUsize, Ordering};
+use std::sync::atomic::Ordering;
 
 /// Identifies the shared-memory step that follows a yield point.
 #[derive(Clone, Copy, Debug, PartialEq, Eq, Hash)]
 pub enum Site {
-    /// Initial load of `atomic_increment`.
-    IncLoad,
-    /// A compare-exchange of `atomic_increment`.
-    IncCas,
-    /// Initial load of `atomic_decrement`.
-    DecLoad,
-    /// A compare-exchange of `atomic_decrement`.
-    DecCas,
-    /// Read of the free-list slot won by `pop_atomic`.
-    PopSlot,
+    /// A load of one of the allocator's atomic counters.
+    CounterLoad,
+    /// A store to one of the allocator's atomic counters.
+    CounterStore,
+    /// A read-modify-write (compare-exchange, fetch-add, ...) of a counter.
+    CounterRmw,
     /// `raised.add_atomic` in `allocate_atomic`.
     AllocRaise,
     /// Generation read in `allocate_atomic`.
@@ -37,7 +33,7 @@ pub enum Site {
     LazyPush,
 }
 
-static HOOK: AtomicUsize = AtomicUsize::new(0);
+static HOOK: std::sync::atomic::AtomicUsize = std::sync::atomic::AtomicUsize::new(0);
 
 /// Installs (or removes) the callback invoked at every yield point.
 pub fn set_yield_hook(f: Option<fn(Site)>) {
@@ -72,4 +68,111 @@ pub struct AllocSnapshot {
     pub cache_len: usize,
     /// The fresh-index counter.
     pub max_id: usize,
+}
+
+/// Drop-in stand-in for `std::sync::atomic::AtomicUsize` used by the entity
+/// allocator when built with `--cfg specs_verif`: every operation through a
+/// shared reference is preceded by a yield point, so a harness sees each
+/// shared-memory access of the counters as its own step however the calling
+/// code is written. Operations through `&mut` do not yield.
+#[derive(Default, Debug)]
+pub struct AtomicUsize(std::sync::atomic::AtomicUsize);
+
+impl AtomicUsize {
+    /// See `std::sync::atomic::AtomicUsize::new`.
+    pub const fn new(v: usize) -> Self {
+        AtomicUsize(std::sync::atomic::AtomicUsize::new(v))
+    }
+
+    /// See `std::sync::atomic::AtomicUsize::get_mut`.
+    pub fn get_mut(&mut self) -> &mut usize {
+        self.0.get_mut()
+    }
+
+    /// See `std::sync::atomic::AtomicUsize::into_inner`.
+    pub fn into_inner(self) -> usize {
+        self.0.into_inner()
+    }
+
+    /// See `std::sync::atomic::AtomicUsize::load`.
+    pub fn load(&self, o: Ordering) -> usize {
+        yield_point(Site::CounterLoad);
+        self.0.load(o)
+    }
+
+    /// See `std::sync::atomic::AtomicUsize::store`.
+    pub fn store(&self, v: usize, o: Ordering) {
+        yield_point(Site::CounterStore);
+        self.0.store(v, o)
+    }
+
+    /// See `std::sync::atomic::AtomicUsize::swap`.
+    pub fn swap(&self, v: usize, o: Ordering) -> usize {
+        yield_point(Site::CounterRmw);
+        self.0.swap(v, o)
+    }
+
+    /// See `std::sync::atomic::AtomicUsize::compare_exchange`.
+    pub fn compare_exchange(
+        &self,
+        c: usize,
+        n: usize,
+        s: Ordering,
+        f: Ordering,
+    ) -> Result<usize, usize> {
+        yield_point(Site::CounterRmw);
+        self.0.compare_exchange(c, n, s, f)
+    }
+
+    /// See `std::sync::atomic::AtomicUsize::compare_exchange_weak`. Never
+    /// fails spuriously (a strong exchange is a legal weak one).
+    pub fn compare_exchange_weak(
+        &self,
+        c: usize,
+        n: usize,
+        s: Ordering,
+        f: Ordering,
+    ) -> Result<usize, usize> {
+        yield_point(Site::CounterRmw);
+        self.0.compare_exchange(c, n, s, f)
+    }
+
+    /// See `std::sync::atomic::AtomicUsize::fetch_add`.
+    pub fn fetch_add(&self, v: usize, o: Ordering) -> usize {
+        yield_point(Site::CounterRmw);
+        self.0.fetch_add(v, o)
+    }
+
+    /// See `std::sync::atomic::AtomicUsize::fetch_sub`.
+    pub fn fetch_sub(&self, v: usize, o: Ordering) -> usize {
+        yield_point(Site::CounterRmw);
+        self.0.fetch_sub(v, o)
+    }
+
+    /// See `std::sync::atomic::AtomicUsize::fetch_update`.
+    pub fn fetch_update<F>(&self, s: Ordering, f: Ordering, mut g: F) -> Result<usize, usize>
+    where
+        F: FnMut(usize) -> Option<usize>,
+    {
+        let mut prev = self.load(f);
+        while let Some(next) = g(prev) {
+            match self.compare_exchange_weak(prev, next, s, f) {
+                x @ Ok(_) => return x,
+                Err(p) => prev = p,
+            }
+        }
+        Err(prev)
+    }
+
+    /// See `std::sync::atomic::AtomicUsize::fetch_max`.
+    pub fn fetch_max(&self, v: usize, o: Ordering) -> usize {
+        yield_point(Site::CounterRmw);
+        self.0.fetch_max(v, o)
+    }
+
+    /// See `std::sync::atomic::AtomicUsize::fetch_min`.
+    pub fn fetch_min(&self, v: usize, o: Ordering) -> usize {
+        yield_point(Site::CounterRmw);
+        self.0.fetch_min(v, o)
+    }
 }
